@@ -93,9 +93,13 @@ def rule_legacy_attr_parser(ctx):
     if not recs:
         raise A.AnchorLost(f"{UTILS}::parse_punctuated_nested_meta", "no recursive call")
     params = [A.pat_idents(p_["0"]["pat"]) for p_ in pn.node["sig"]["inputs"] if A.kind(p_) == "FnArg::Typed"]
-    wpos = next((i for i, ns in enumerate(params) if ns == ["wrapper_name"]), None)
-    if wpos is None:
-        raise A.AnchorLost(f"{UTILS}::parse_punctuated_nested_meta", "no `wrapper_name` parameter")
+    # the wrapper is the one `Option<&str>` parameter, whatever it is called
+    typed = [p_ for p_ in pn.node["sig"]["inputs"] if A.kind(p_) == "FnArg::Typed"]
+    wcand = [i for i, p_ in enumerate(typed) if re.fullmatch(r"Option<&(?:'\w+)?str>?", A.expr_text(f, p_["0"]["ty"]).replace(" ", ""))]
+    if len(wcand) != 1 or len(params[wcand[0]]) != 1:
+        raise A.AnchorLost(f"{UTILS}::parse_punctuated_nested_meta", "no single `Option<&str>` wrapper parameter")
+    wpos = wcand[0]
+    wname = params[wpos][0]
     from .. import types as TY
 
     for c, cps in recs:
@@ -111,7 +115,7 @@ def rule_legacy_attr_parser(ctx):
                 if b is not None and b.get("init") is not None:
                     src = b["init"]
             rs = A.render(src)
-            ok = ("path" in rs or "list" in rs) and "wrapper_name" not in rs
+            ok = ("path" in rs or "list" in rs) and wname not in rs
             if A.kind(src) == "Expr::Lit":
                 # a literal name is right under an arm guarded by `is_ident(<that literal>)`
                 arm = next((x for x in reversed(cps) if A.kind(x) == "Arm"), None)
